@@ -100,6 +100,9 @@ def decode(
     except (TypeError, ValueError):
         raise InvalidPayloadError()
 
+    if not isinstance(claims, dict):
+        raise InvalidPayloadError("Payload should be a JSON object")
+
     return Token(header, claims)
 
 
